@@ -38,6 +38,9 @@ CLAIMED = {
     "C14": ("SMT (z3; IEEE exp under/overflow as axioms on an uninterpreted Exp; division-by-zero side "
             "obligations) over symbolic execution of the thermal/impulsive state builders and the real "
             "basis-context machinery with an eigh contract stub", "4/C14", ""),
+    "C15": ("SMT (z3 real arithmetic) over symbolic execution of repeated calls on shared propagator / hierarchy / "
+            "tensor objects: term-wise equality of results and of input snapshots", "4/C15",
+            "One open known finding (C15-refinement-sticks)."),
     "C16": ("Table-SMT (z3 integer queries over the index/link tables the real code builds) + SMT over symbolic "
             "execution of the HEOM right-hand sides and propagate()", "4/C16", ""),
     "C17": ("SMT (z3 nonlinear real arithmetic, Exp uninterpreted with instantiated functional equation) over "
@@ -52,5 +55,5 @@ CLAIMED = {
 }
 _NYB = "check not built yet in this round (design in DESIGN.md section 4); not claimed until its harness is sound"
 NOT_APPLICABLE = {p: _NYB for p in
-                  ["C%02d" % i for i in range(2, 20) if i not in (2, 3, 4, 5, 6, 7, 8, 9, 13, 14, 16, 17, 19)]}
+                  ["C%02d" % i for i in range(2, 20) if i not in (2, 3, 4, 5, 6, 7, 8, 9, 13, 14, 15, 16, 17, 19)]}
 SOURCE_COMMITS = []
